@@ -102,7 +102,7 @@ func (a *vKindActor) Receive(c *actor.Context) {
 	}
 }
 
-var vSysKinds = []string{"p", "q"}
+var vSysKinds = []string{"p", "q", "pp"} // one kind name is a prefix of another
 var vSysIDs = []string{"1", "2", "e/7"} // an id may contain "/" (only kind names may not)
 
 func vPidStr(p *actor.PID) string {
@@ -379,7 +379,7 @@ func TestVerifClusterSys(t *testing.T) {
 		emit(fmt.Sprintf("corpus%d", i), cfg, ops, seed)
 	}
 	r := vgen.NewRng(vgen.Seed())
-	n := vgen.Scale(500, 8000)
+	n := vgen.Scale(1200, 10000)
 	ids := []string{"A", "B", "C"}
 	for i := 0; i < n; i++ {
 		rr := r.Fork()
